@@ -65,7 +65,8 @@ AnyAlpha  == <<JNull, JInt(1), JStr("s"), JArr(<<JInt(1), JStr("s")>>),
                JObj("a" :> JObj("b" :> JNull)), JArr(<<JNull, JBool(TRUE), JDec("0.5"), JArr(<<>>)>>)>>
 \* payloads of undeclared keys: the LSPAny alphabet and an object nested 300 levels deep (what is ignored must be ignored whole)
 DeepObj(n) == [k |-> "deep", n |-> n]       \* {"d": {"d": ... null}} nested n levels, see LspValue.JEq
-UnkAlpha == AnyAlpha \o <<DeepObj(300)>>
+\* ... and a number no double can hold (valid JSON text; Python reads it as infinity)
+UnkAlpha == AnyAlpha \o <<DeepObj(300), JDec("1e999")>>
 CustomStr == "x-custom"
 CustomInt == 99
 
